@@ -500,6 +500,7 @@ func (g *FnGen) finishTags() {
 			} else {
 				g.assumes = append([]string{fmt.Sprintf("(not (%s %d))", ip.pred, id)}, g.assumes...)
 			}
+			g.shiftTags(1)
 			for _, o := range g.obls {
 				o.nAssume++
 			}
@@ -738,9 +739,13 @@ func (g *FnGen) checkInvariants(li *loopInfo, phiVals map[*ssa.Phi]Val, what str
 				name = fmt.Sprintf("%s@edge%d", name, n)
 			}
 		}
+		g.setUses(c)
+		g.curTag = c.Label
 		for _, part := range env.topParts(c.E) {
 			g.oblige("inv/"+what, name+part.Suffix, part.T, c.Src, li.header.Instrs[0].Pos())
 		}
+		g.curTag = ""
+		g.curUses = nil
 	}
 	for k, t := range g.implicitRangeInv(li, phiVals) {
 		name := fmt.Sprintf("loop%d/rangeinv#%d/%s", li.ord, k, what)
@@ -822,7 +827,12 @@ func (g *FnGen) loopHeader(li *loopInfo, entryPhi map[*ssa.Phi]Val) {
 	// 4. assume invariants
 	env := g.localEnv(li.header, phiVals)
 	for _, c := range g.invariantsOf(li) {
+		n0 := len(g.assumes)
 		g.assumeHere(env.trBool(c.E))
+		if c.Label != "" && len(g.assumes) > n0 {
+			// the invariant itself is the last assumption added (allocation facts about the references it reads come first)
+			g.tagAssume(len(g.assumes)-1, c.Label)
+		}
 	}
 	for _, t := range g.implicitRangeInv(li, phiVals) {
 		g.assumeHere(t)
@@ -1082,9 +1092,17 @@ func (g *FnGen) ret(i *ssa.Return) {
 		if c.Label != "" {
 			name = fmt.Sprintf("post:%s@ret%d", c.Label, idx)
 		}
+		g.setUses(c)
+		if c.Label != "" {
+			// earlier postconditions are hypotheses of later ones unless the later one selects its hypotheses (`uses`;
+			// an earlier postcondition is named post:<label> there)
+			g.curTag = "post:" + c.Label
+		}
 		for _, part := range env.topParts(c.E) {
 			g.oblige("post", name+part.Suffix, part.T, c.Src, i.Pos())
 		}
+		g.curTag = ""
+		g.curUses = nil
 	}
 }
 
